@@ -17,8 +17,16 @@ func init() {
 		ConfigSensitive: true,
 		Rules: []func(*Checker){ruleGate("C15.gate"), ruleC15Deferred, ruleC15Truncate, ruleMaterialise("C15.materialise"), ruleRestore("C15.restore"), ruleMeta("C15.meta"), ruleC01NoFollowAs("C15.lastwins"), ruleC15XHeader, ruleC15Retry, ruleLinkRestore("C15.linkrestore"), aliasRule(ruleC01Replace, "C01.replace", "C15.replace", 1),
 			aliasRuleFiltered(ruleC02LinkTarget, "C02.linktarget", "C15.linktarget", 1, func(o Oblig) bool { return strings.Contains(o.Key, "Unpack") }),
+			func(c *Checker) {
+				unpackHelpers = map[string]bool{}
+				if u := c.P.Fn("slug", "Packer.Unpack"); u != nil {
+					for f := range c.P.family(u) {
+						unpackHelpers[c.P.FuncName(f)] = true
+					}
+				}
+			},
 			aliasRuleFiltered(ruleC12Errors, "C12.errors", "C15.errors", 5, func(o Oblig) bool {
-				return strings.Contains(o.Key, "(*slug.Packer).Unpack") || strings.Contains(o.Key, "unpackinfo.")
+				return strings.Contains(o.Key, "(*slug.Packer).Unpack") || strings.Contains(o.Key, "unpackinfo.") || unpackHelperKey(o.Key)
 			})},
 		NotDecided: []string{
 			"the resulting tree for a given entry sequence (run-time fact)",
@@ -1311,4 +1319,16 @@ func ruleLinkRestore(id string) func(*Checker) {
 			}
 		}
 	}
+}
+
+// unpackHelperKey: the obligation's function is a private helper of Unpack (set by the C15 run itself).
+var unpackHelpers map[string]bool
+
+func unpackHelperKey(key string) bool {
+	for n := range unpackHelpers {
+		if strings.Contains(key, "/"+n+"/") {
+			return true
+		}
+	}
+	return false
 }
